@@ -187,6 +187,15 @@ func c10Scenarios() []c10Scenario {
 	c15.MaxSecs = 2
 	s15 := c10Scenario{Name: "S15", What: "the output directory's name contains characters that mean something to file-name patterns ('[', ']', '*', '?'); constant recorder on, with a motion recording", Cfg: c15, Cam: cam, Frames: c10Frames(cam, "ffffmmmffffffffffffff"), OutName: "out [site 7] *?"}
 	out = append(out, s15)
+	c17 := base()
+	c17.DeviceName = strings.Repeat("n", 300)
+	c17.Constant = true
+	c17.MaxSecs = 2
+	f17 := c10Frames(cam, "ffffmmmmffffffffffmmmffff")
+	f17[9].Pix[5][5], f17[9].Bad = 0, true // rejected frames while every start is being refused
+	f17[16].Pix[5][5], f17[16].Bad = 0, true
+	s17 := c10Scenario{Name: "S17", What: "every recording start fails while the header is written, the constant recorder is on, and two frames of the stream are rejected", Cfg: c17, Cam: cam, Frames: f17}
+	out = append(out, s17)
 	c16 := base()
 	c16.Constant = true
 	c16.MaxSecs = 2
@@ -536,7 +545,7 @@ func TestVerif_C10(t *testing.T) {
 	defer c.Finish()
 	scratch := vEnv("VERIF_SCRATCH", t.TempDir())
 	scs := c10Scenarios()
-	quickSet := map[string]bool{"S1": true, "S3": true, "S4": true, "S5": true, "S6": true, "S8": true, "S10": true, "S11": true, "S12": true, "S13": true, "S14": true, "S15": true, "S16": true}
+	quickSet := map[string]bool{"S1": true, "S3": true, "S4": true, "S5": true, "S6": true, "S8": true, "S10": true, "S11": true, "S12": true, "S13": true, "S14": true, "S15": true, "S16": true, "S17": true}
 	for si, sc := range scs {
 		if !c.Thorough() && !quickSet[sc.Name] {
 			continue
